@@ -37,7 +37,7 @@ def check(src, rep):
     for sp in m.paths:
         if not m.feasible(sp):
             continue
-        grows_raw = any(isinstance(o, tuple) and o[0] == "append" for o in sp.post.raw_ops) and "clear" not in sp.post.raw_ops[-1:]
+        grows_raw = any(isinstance(o, tuple) and o[0] == "append" for o in sp.post.raw_ops) and "clear" not in sp.post.raw_ops  # a row that resets the history first adds a bounded amount
         if not grows_raw:
             continue
         grow += 1
